@@ -8,7 +8,7 @@ package crypto
 // C39: a multi-signature verifies iff it decodes, has exactly one signature per member key,
 // and every member key accepts the signature at ITS OWN position (order matters).
 //@ func (PublicKeyMultiSignature).VerifyBytes
-//@   props C39
+//@   props C39,C12
 //@   modifies all
 //@   ensures [sound] result ==> decMSok(old(bytes(multiSignature))) && msN(decMS(old(bytes(multiSignature)))) == len(pms.PublicKeys) && (forall i int :: 0 <= i && i < len(pms.PublicKeys) ==> msHas(decMS(old(bytes(multiSignature))), i) && sigVerify(pms.PublicKeys[i], bytes(msg), msSig(decMS(old(bytes(multiSignature))), i)))
 //@   ensures [complete] decMSok(old(bytes(multiSignature))) && msN(decMS(old(bytes(multiSignature)))) == len(pms.PublicKeys) && (forall i int :: 0 <= i && i < len(pms.PublicKeys) ==> msHas(decMS(old(bytes(multiSignature))), i) && sigVerify(pms.PublicKeys[i], bytes(msg), msSig(decMS(old(bytes(multiSignature))), i))) ==> result
